@@ -782,6 +782,144 @@ async fn err_enum(rq: Rq, _q: Query<QSmall>, _b: TypedBody<Plain>) -> Result<Htt
     Ok(HttpResponseOk(Plain::arb(&mut r, 0)))
 }
 
+
+// ---------------------------------------------------------------------------
+// endpoints: the framework fails AFTER the handler returned Ok (custom error types)
+// ---------------------------------------------------------------------------
+//
+// The handlers below always succeed.  When the (documented, optional) query
+// parameter `fail` is true the value they return cannot be turned into an HTTP
+// response (Serialize errors / a structured header value that is not a legal
+// field value), so the *framework* answers 500.  The document says 5XX bodies
+// of these operations are the endpoint's error type.
+
+#[derive(Serialize, Deserialize, JsonSchema, Debug, Clone)]
+pub struct QFail {
+    /// ask for a response value the framework cannot serialise
+    pub fail: Option<bool>,
+}
+
+/// JsonSchema derived, Serialize by hand: errors when `fail` is set.
+#[derive(JsonSchema, Debug, Clone)]
+pub struct Fragile {
+    pub value: u32,
+    pub note: String,
+    #[schemars(skip)]
+    pub fail: bool,
+}
+impl Serialize for Fragile {
+    fn serialize<S: serde::Serializer>(&self, s: S) -> Result<S::Ok, S::Error> {
+        use serde::ser::SerializeStruct;
+        if self.fail {
+            return Err(serde::ser::Error::custom("Fragile refuses to be serialised (asked to)"));
+        }
+        let mut st = s.serialize_struct("Fragile", 2)?;
+        st.serialize_field("value", &self.value)?;
+        st.serialize_field("note", &self.note)?;
+        st.end()
+    }
+}
+
+#[endpoint { method = GET, path = "/zoo/err/serialize-fails/struct", tags = ["class:framework-5xx-on-demand"] }]
+async fn err_serialize_struct(rq: Rq, q: Query<QFail>) -> Result<HttpResponseOk<Fragile>, StructError> {
+    let mut r = rng_of(&rq);
+    let fail = q.into_inner().fail.unwrap_or(false);
+    Ok(HttpResponseOk(Fragile { value: Arb::arb(&mut r, 0), note: Arb::arb(&mut r, 0), fail }))
+}
+#[endpoint { method = GET, path = "/zoo/err/serialize-fails/enum", tags = ["class:framework-5xx-on-demand"] }]
+async fn err_serialize_enum(rq: Rq, q: Query<QFail>) -> Result<HttpResponseCreated<Fragile>, EnumError> {
+    let mut r = rng_of(&rq);
+    let fail = q.into_inner().fail.unwrap_or(false);
+    Ok(HttpResponseCreated(Fragile { value: Arb::arb(&mut r, 0), note: Arb::arb(&mut r, 0), fail }))
+}
+#[endpoint { method = GET, path = "/zoo/err/bad-header/struct", tags = ["class:framework-5xx-on-demand"] }]
+async fn err_bad_header_struct(
+    rq: Rq,
+    q: Query<QFail>,
+) -> Result<HttpResponseHeaders<HttpResponseOk<Plain>, HdrOut>, StructError> {
+    let mut r = rng_of(&rq);
+    let mut h = HdrOut::arb(&mut r, 0);
+    if q.into_inner().fail.unwrap_or(false) {
+        // not a legal header field value
+        h.second = format!("two\nlines {}", header_safe(&mut r));
+    }
+    Ok(HttpResponseHeaders::new(HttpResponseOk(Plain::arb(&mut r, 0)), h))
+}
+#[endpoint { method = GET, path = "/zoo/err/bad-header/enum", tags = ["class:framework-5xx-on-demand"] }]
+async fn err_bad_header_enum(
+    rq: Rq,
+    q: Query<QFail>,
+) -> Result<HttpResponseHeaders<HttpResponseAccepted<Plain>, HdrOut>, EnumError> {
+    let mut r = rng_of(&rq);
+    let mut h = HdrOut::arb(&mut r, 0);
+    if q.into_inner().fail.unwrap_or(false) {
+        h.etag = "nul\u{0}byte".to_string();
+    }
+    Ok(HttpResponseHeaders::new(HttpResponseAccepted(Plain::arb(&mut r, 0)), h))
+}
+
+// ---------------------------------------------------------------------------
+// endpoints: untagged enums whose variants overlap (anyOf, NOT oneOf)
+// ---------------------------------------------------------------------------
+
+/// every value of A is also a value of B, and vice versa when `y` is absent
+#[derive(Serialize, Deserialize, JsonSchema, Debug, Clone)]
+#[serde(untagged)]
+pub enum OverlapStructs {
+    A { x: u32 },
+    B { x: u32, y: Option<u32> },
+}
+/// every u32 is a u64
+#[derive(Serialize, Deserialize, JsonSchema, Debug, Clone)]
+#[serde(untagged)]
+pub enum OverlapNums {
+    Small(u32),
+    Big(u64),
+    Text(String),
+}
+#[derive(Serialize, Deserialize, JsonSchema, Debug, Clone)]
+pub struct OverlapHolder {
+    pub s: OverlapStructs,
+    pub n: OverlapNums,
+    pub list: Vec<OverlapNums>,
+}
+impl Arb for OverlapStructs {
+    fn arb(r: &mut Rng, d: u32) -> Self {
+        match r.below(3) {
+            0 => OverlapStructs::A { x: Arb::arb(r, d) },
+            1 => OverlapStructs::B { x: Arb::arb(r, d), y: None },
+            _ => OverlapStructs::B { x: Arb::arb(r, d), y: Some(Arb::arb(r, d)) },
+        }
+    }
+}
+impl Arb for OverlapNums {
+    fn arb(r: &mut Rng, d: u32) -> Self {
+        match r.below(4) {
+            0 => OverlapNums::Small(Arb::arb(r, d)),
+            // inside the overlap: a Big that fits a u32
+            1 => OverlapNums::Big(u32::arb(r, d) as u64),
+            2 => OverlapNums::Big(Arb::arb(r, d)),
+            _ => OverlapNums::Text(Arb::arb(r, d)),
+        }
+    }
+}
+arb_struct!(OverlapHolder { s, n, list });
+
+#[endpoint { method = GET, path = "/zoo/resp/untagged-overlap/structs", tags = ["response-enum-overlap"] }]
+async fn resp_overlap_structs(rq: Rq) -> Result<HttpResponseOk<OverlapStructs>, HttpError> {
+    ok(&rq)
+}
+#[endpoint { method = GET, path = "/zoo/resp/untagged-overlap/nums", tags = ["response-enum-overlap"] }]
+async fn resp_overlap_nums(rq: Rq) -> Result<HttpResponseOk<OverlapNums>, HttpError> {
+    ok(&rq)
+}
+#[endpoint { method = GET, path = "/zoo/resp/untagged-overlap/holder", tags = ["response-enum-overlap"] }]
+async fn resp_overlap_holder(rq: Rq) -> Result<HttpResponseOk<OverlapHolder>, HttpError> {
+    ok(&rq)
+}
+body_ep!(body_overlap_holder, POST, "/zoo/body/untagged-overlap", OverlapHolder, "body-enum-overlap");
+body_ep!(body_overlap_structs, PUT, "/zoo/body/untagged-overlap/structs", OverlapStructs, "body-enum-overlap");
+
 // ---------------------------------------------------------------------------
 
 pub fn api() -> ApiDescription<ZooCtx> {
@@ -799,7 +937,9 @@ pub fn api() -> ApiDescription<ZooCtx> {
         all_three, resp_created, resp_accepted, resp_deleted, resp_updated, resp_found,
         resp_see_other, resp_temporary_redirect, resp_headers, resp_freeform, resp_freeform_body,
         resp_ranged, resp_scalar, resp_unit, resp_option, resp_option_inline, page_items,
-        err_struct, err_enum,
+        err_struct, err_enum, err_serialize_struct, err_serialize_enum, err_bad_header_struct,
+        err_bad_header_enum, resp_overlap_structs, resp_overlap_nums, resp_overlap_holder,
+        body_overlap_holder, body_overlap_structs,
     );
     api
 }
